@@ -69,7 +69,7 @@ def workerStep (s : State) : Option State :=
   | .idle => none
   | .finished => none
   | .running .notifyStart f =>
-      some { s with worker := .running .next f, log := s.log ++ [.note .start] }
+      some { s with worker := .running .next f, log := s.log ++ [.note .start true] }
   | .running .next f =>
       match s.queue with
       | [] => some { s with worker := .running .notifyResult f }
@@ -78,7 +78,7 @@ def workerStep (s : State) : Option State :=
       some { s with worker := .running .next (f || !t.ok), log := s.log ++ [.run t] }
   | .running .notifyResult f =>
       some { s with worker := .running .check f,
-                    log := s.log ++ [.note (if f then .failure else .success)] }
+                    log := s.log ++ [.note (if f then .failure else .success) true] }
   | .running .check f =>
       match s.queue with
       | [] => some { s with worker := .running .exit f }
@@ -99,8 +99,8 @@ def beginOp (s : State) (op : Op) (rest : List Op) : Option State :=
   | .maintNoChange => some (s.finishOp .maintNoChange 0)
   | .sync os => some { s with live := 0, cpc := afterPush os true .sync .result }
   | .recover o =>
-      if s.working then some (s.finishOp .recover 3)
-      else some { s with cpc := .push [o] false .recover .result }
+      if s.working then some (s.finishOp .recover 0)
+      else some { s with cpc := .push [o] false .recover .never }
   | .isMaint => some (s.finishOp .isMaint (if s.maintMode then 1 else 0))
   | .join =>
       if s.working then none
@@ -109,6 +109,7 @@ def beginOp (s : State) (op : Op) (rest : List Op) : Option State :=
   | .find => some (s.finishOp .find (sessionOp s .find).2)
   | .ctx => some (s.finishOp .ctx (sessionOp s .ctx).2)
   | .setHandler => some (s.finishOp .setHandler 2)
+  | _ => none   -- entry points added to `Model.lean` later are not part of this historic model
 
 def clientStep (s : State) : Option State :=
   match s.cpc with
